@@ -217,6 +217,91 @@ def closeConn (up isSrc : Bool) (ce : Option Err) (st : Stats) : Stats :=
       else if up == isSrc then (if st.covert = "" then { st with covert := t } else st)
       else (if st.client = "" then { st with client := t } else st)
 
+/-! ### the function body as a statement list with a defer stack
+
+`halfPipe` leaves through a `return` after a failed `setConnDeadline` (two places before the loop, two
+inside it) or by falling off its end after a `break`.  Which deferred functions run then depends on
+*where the `defer` statements stand*: a `defer` registered below an exit is not run by that exit.  The
+model therefore interprets the top-level statements of the function (`Stmt`) with an explicit defer
+stack; the statement list of the real function is regenerated from the Go source on every run
+(`CJ/Gen/RelayShape.lean`) and the tear-down theorems of `CJ/Props/C05.lean` are stated for every
+statement list whose `defer`s precede its first exit, and instantiated with the regenerated one. -/
+
+/-- one observable action of a deferred function of `halfPipe` -/
+inductive Act
+  | spawnCloseSrc      -- `go closeConn(src, true)`
+  | closeSrc           -- `closeConn(src, true)` on the calling goroutine
+  | spawnCloseDst      -- `go closeConn(dst, false)`
+  | closeDst           -- `closeConn(dst, false)` on the calling goroutine
+  | duration           -- `stats.duration(…)`
+  | completed          -- `stats.completed(isUpload)`
+  | wgDone             -- `wg.Done()`
+deriving Repr, DecidableEq
+
+/-- a top-level statement of `halfPipe`, as the extractor classifies it -/
+inductive Stmt
+  | deferActs (acts : List Act)   -- `defer f()` / `defer func() { … }()`: what the deferred body does, in order
+  | arm (onSrc : Bool)            -- `err := setConnDeadline(src|dst, …)`
+  | retIfErr (logs : Bool)        -- `if err != nil { [logger.Errorln(…)]; return }`
+  | loop                          -- `for { … }`: the relay loop (`break`s and `return`s inside, no `defer`)
+  | other                         -- a statement that cannot leave the function and defers nothing
+  | unknown                       -- anything else that contains `return`, `defer`, `goto` or a label
+deriving Repr, DecidableEq
+
+/-- why the direction ended -/
+inductive Exit
+  | dlInit (onSrc : Bool)         -- `return` after a failed initial `setConnDeadline`
+  | readErr | writeErr            -- `break` out of the loop
+  | dlRefresh (onSrc : Bool)      -- `return` after a failed refresh inside the loop
+  | unknown                       -- a `return` the model does not interpret
+  | fellOff                       -- end of a body without a loop
+deriving Repr, DecidableEq
+
+/-- the statement skeleton of `halfPipe` as the model's answers assume it (reviewed against the source;
+`CJ.Props.C05.halfpipe_skeleton_matches` compares it with the regenerated one on every run) -/
+def canonical : List Stmt :=
+  [.deferActs [.duration, .completed, .wgDone],
+   .deferActs [.spawnCloseSrc, .closeDst],
+   .arm true, .retIfErr true, .arm false, .retIfErr true,
+   .loop]
+
+structure Run where
+  res : Res := {}
+  exit : Exit
+  ran : List Act          -- deferred actions executed by this exit, in execution order
+  logs : Nat := 0         -- "error setting deadline …" lines
+deriving Repr
+
+def Run.prepend (evs : List Ev) (x : Run) : Run := { x with res := x.res.prepend evs [] 0 }
+
+/-- Go runs deferred calls last-in-first-out; the stack is kept top first -/
+def unwind (stack : List (List Act)) : List Act := stack.flatten
+
+def loopExit (r : Res) : Exit := if r.writeErr.isSome then .writeErr else .readErr
+
+/-- Interpreter of a statement list.  `stack`: deferred bodies registered so far (top first); `ds`: the
+remaining `SetDeadline` script; `failed`: the connection whose latest `setConnDeadline` failed (`err != nil`).
+Statements after the loop are interpreted for their `defer`s and exits only (the real function has none). -/
+def exec (s : Script) : List Stmt → List (List Act) → List DlRes → Option Bool → Run
+  | [], stack, _, _ => { exit := .fellOff, ran := unwind stack }
+  | .deferActs a :: p, stack, ds, f => exec s p (a :: stack) ds f
+  | .other :: p, stack, ds, f => exec s p stack ds f
+  | .unknown :: _, stack, _, _ => { exit := .unknown, ran := unwind stack }
+  | .arm onSrc :: p, stack, ds, _ =>
+    let a := arm onSrc ds
+    (exec s p stack a.2.2 (if a.2.1 then none else some onSrc)).prepend [a.1]
+  | .retIfErr logs :: p, stack, ds, f =>
+    match f with
+    | some c => { res := { dlFail := some c }, exit := .dlInit c, ran := unwind stack, logs := if logs then 1 else 0 }
+    | none => exec s p stack ds none
+  | .loop :: p, stack, ds, _ =>
+    let r := loop s.reads s.writes ds
+    match r.dlFail with
+    | some c => { res := r, exit := .dlRefresh c, ran := unwind stack, logs := 1 }
+    | none =>
+      let x := exec s p stack [] none
+      { res := r, exit := if x.exit = .fellOff then loopExit r else x.exit, ran := x.ran, logs := x.logs }
+
 /-- observable result of one `halfPipe` call -/
 structure Out where
   trace : List Ev
@@ -228,18 +313,26 @@ structure Out where
   done : Nat             -- number of `wg.Done()` calls
   completed : Nat        -- number of `stats.completed` calls
   logs : Nat             -- "error setting deadline …" lines
+  exit : Exit
+  teardown : List Act    -- the deferred actions the exit ran, in order
 deriving Repr
 
-/-- `halfPipe`: every exit (loop `break`, `return` after a failed `SetDeadline`) runs both deferred
-functions: close `dst` synchronously and `src` on its own goroutine, then `cleanup` (`wg.Done`).
-The two closes commute on the statistics (`closeConn_comm`), so one order is fixed here. -/
-def halfPipe (up : Bool) (st : Stats) (s : Script) : Out :=
-  let r := run s
-  let st1 := applyLoopErr up st r
-  let st2 := closeConn up true s.srcClose (closeConn up false s.dstClose st1)
-  { trace := r.trace, delivered := r.delivered, counted := r.counted, stats := st2,
-    closedSrc := 1, closedDst := 1, done := 1, completed := 1,
-    logs := if r.dlFail.isSome then 1 else 0 }
+/-- `halfPipe` with the statement list `prog`: the loop's error assignments, then whatever the exit's
+deferred functions do.  The two closes commute on the statistics (`closeConn_comm`), so one order is
+fixed here; a close that does not happen records nothing. -/
+def halfPipeP (prog : List Stmt) (up : Bool) (st : Stats) (s : Script) : Out :=
+  let x := exec s prog [] s.dls none
+  let nSrc := x.ran.count .spawnCloseSrc + x.ran.count .closeSrc
+  let nDst := x.ran.count .spawnCloseDst + x.ran.count .closeDst
+  let st1 := applyLoopErr up st x.res
+  let st2 := if nDst = 0 then st1 else closeConn up false s.dstClose st1
+  let st3 := if nSrc = 0 then st2 else closeConn up true s.srcClose st2
+  { trace := x.res.trace, delivered := x.res.delivered, counted := x.res.counted, stats := st3,
+    closedSrc := nSrc, closedDst := nDst, done := x.ran.count .wgDone, completed := x.ran.count .completed,
+    logs := x.logs, exit := x.exit, teardown := x.ran }
+
+/-- `halfPipe` as it stands in proxies.go -/
+def halfPipe (up : Bool) (st : Stats) (s : Script) : Out := halfPipeP canonical up st s
 
 /-! ### `Proxy` -/
 
@@ -257,48 +350,97 @@ structure ProxyOut where
   bytesUp : Nat
   bytesDown : Nat
   dialStat : String               -- tunnelStats.CovertDialErr
+  stats : Stats                   -- tunnelStats.ClientConnErr / CovertConnErr when `Proxy` returns
   gaugeAdds : Nat                 -- addSession calls
   gaugeRemoves : Nat              -- removeSession calls
-  wgPending : Nat                 -- WaitGroup counter when `wg.Wait()` is reached
+  wgPending : Int                 -- WaitGroup counter when `wg.Wait()` is reached (0 if it is not reached)
   returned : Bool                 -- `Proxy` returns (`wg.Wait()` does not block)
   printed : Nat                   -- "proxy closed" lines
   clientCloses : Nat              -- `Close` calls on the client connection
   covertCloses : Nat              -- `Close` calls on the covert connection (incl. the deferred one)
-  panicked : Bool := false        -- nil `covertConn` dereferenced (see `proxy`)
+  panicked : Bool := false        -- nil `covertConn` dereferenced (see `execP`)
 deriving Repr
 
-/-- `defer covertConn.Close()` on a nil interface: Go panics.  Reached when the dial error leaves
-`CovertDialErr` empty (`generalizeErr` gives nil for the closed class; the empty text of
-`errors.New("")`).  `net.Dial` does not return such errors, so this is latent; the model keeps it visible. -/
-def proxyPanic : ProxyOut :=
-  { started := false, upOut := none, downOut := none, bytesUp := 0, bytesDown := 0, dialStat := "",
-    gaugeAdds := 0, gaugeRemoves := 0, wgPending := 0, returned := false, printed := 0,
-    clientCloses := 0, covertCloses := 0, panicked := true }
+/-- a top-level statement of `Proxy`, as the extractor classifies it -/
+inductive PStmt
+  | dial                          -- `covertConn, err := net.Dial(…)`; `CovertDialErr = generalizeErr(err).Error()`
+  | retIfDialErr (prints : Bool)  -- `if tunStats.CovertDialErr != "" { [tunStats.Print]; return }`
+  | deferCloseCovert              -- `defer covertConn.Close()`
+  | header                        -- `if flag { err = writePROXYHeader(…); if err != nil { log; return } }`
+  | wgAdd (n : Nat)               -- `wg.Add(n)`
+  | addSession | removeSession    -- the session gauge
+  | goHalf (up : Bool)            -- `go halfPipe(…, &wg, …, "Up …"|"Down …", tunStats)`
+  | wgWait                        -- `wg.Wait()`
+  | print                         -- `tunStats.Print(logger)`
+  | other
+  | unknown                       -- anything else that contains `return`, `defer`, `go`, `goto`
+deriving Repr, DecidableEq
 
-/-- `Proxy`: dial; on a (generalised, non-empty) dial error print the stats and return.  Optional PROXY
-header.  `wg.Add(2)`, gauge +1, two half pipes, `wg.Wait()`, gauge −1, print. -/
-def proxy (i : ProxyIn) : ProxyOut :=
-  match i.dialErr with
-  | some e =>
-    match e.stat with
-    | none => proxyPanic
-    | some t =>
-      if t = "" then proxyPanic else
-      { started := false, upOut := none, downOut := none, bytesUp := 0, bytesDown := 0, dialStat := t,
-        gaugeAdds := 0, gaugeRemoves := 0, wgPending := 0, returned := true, printed := 1,
-        clientCloses := 0, covertCloses := 0 }
-  | none =>
-    if i.header = some false then
-      { started := false, upOut := none, downOut := none, bytesUp := 0, bytesDown := 0, dialStat := "",
-        gaugeAdds := 0, gaugeRemoves := 0, wgPending := 0, returned := true, printed := 0,
-        clientCloses := 0, covertCloses := 1 }
-    else
-      let u := halfPipe true {} i.up
-      let d := halfPipe false {} i.down
-      let pending := 2 - u.done - d.done
-      { started := true, upOut := some u, downOut := some d, bytesUp := u.counted, bytesDown := d.counted,
-        dialStat := "", gaugeAdds := 1, gaugeRemoves := if pending = 0 then 1 else 0,
-        wgPending := pending, returned := pending = 0, printed := if pending = 0 then 1 else 0,
-        clientCloses := u.closedSrc + d.closedDst, covertCloses := u.closedDst + d.closedSrc + 1 }
+/-- the statement skeleton of `Proxy` the model's answers assume (compared with the regenerated one by
+`CJ.Props.C05.proxy_skeleton_matches`) -/
+def canonicalP : List PStmt :=
+  [.dial, .retIfDialErr true, .deferCloseCovert, .header, .wgAdd 2, .addSession, .goHalf true, .goHalf false,
+   .wgWait, .removeSession, .print]
+
+structure PState where
+  dialStat : String := ""
+  covertNil : Bool := false       -- `net.Dial` failed: `covertConn` is a nil interface
+  deferred : Nat := 0             -- deferred `covertConn.Close()` calls
+  wg : Int := 0
+  adds : Nat := 0
+  removes : Nat := 0
+  printed : Nat := 0
+  clientCloses : Nat := 0
+  covertCloses : Nat := 0
+  up : Option Out := none
+  down : Option Out := none
+  stats : Stats := {}
+deriving Repr
+
+def PState.finish (st : PState) (returned : Bool) (pending : Int := 0) (panicked : Bool := false) : ProxyOut :=
+  { started := st.up.isSome || st.down.isSome, upOut := st.up, downOut := st.down,
+    bytesUp := (st.up.map (·.counted)).getD 0, bytesDown := (st.down.map (·.counted)).getD 0,
+    dialStat := st.dialStat, stats := st.stats, gaugeAdds := st.adds, gaugeRemoves := st.removes,
+    wgPending := pending, returned := returned, printed := st.printed, clientCloses := st.clientCloses,
+    covertCloses := st.covertCloses + (if returned then st.deferred else 0), panicked := panicked }
+
+/-- Interpreter of the statement list of `Proxy`.  The two directions run concurrently in the code; here
+the download direction starts from the statistics the upload direction left (the Proxy-level observables
+compared with the code — byte counts, closes, the error strings of scenarios in which only one direction
+records an error — do not depend on the interleaving).  `defer covertConn.Close()` on a nil interface
+panics: reached when the dial error leaves `CovertDialErr` empty (`generalizeErr` gives nil for the closed
+class; the empty text of `errors.New("")`).  `net.Dial` does not return such errors, so this is latent; the
+model keeps it visible. -/
+def execP (i : ProxyIn) : List PStmt → PState → ProxyOut
+  | [], st => st.finish true
+  | .other :: p, st => execP i p st
+  | .unknown :: _, st => st.finish true
+  | .dial :: p, st =>
+    match i.dialErr with
+    | none => execP i p st
+    | some e => execP i p { st with covertNil := true, dialStat := (e.stat).getD "" }
+  | .retIfDialErr prints :: p, st =>
+    if st.dialStat ≠ "" then { st with printed := st.printed + (if prints then 1 else 0) }.finish true
+    else execP i p st
+  | .deferCloseCovert :: p, st =>
+    if st.covertNil then st.finish false 0 true else execP i p { st with deferred := st.deferred + 1 }
+  | .header :: p, st =>
+    if st.covertNil then st.finish false 0 true
+    else if i.header = some false then st.finish true else execP i p st
+  | .wgAdd n :: p, st => execP i p { st with wg := st.wg + n }
+  | .addSession :: p, st => execP i p { st with adds := st.adds + 1 }
+  | .removeSession :: p, st => execP i p { st with removes := st.removes + 1 }
+  | .goHalf up :: p, st =>
+    if st.covertNil then st.finish false 0 true else
+    let o := halfPipe up st.stats (if up then i.up else i.down)
+    let st' := { st with wg := st.wg - o.done, stats := o.stats,
+                         clientCloses := st.clientCloses + (if up then o.closedSrc else o.closedDst),
+                         covertCloses := st.covertCloses + (if up then o.closedDst else o.closedSrc) }
+    execP i p (if up then { st' with up := some o } else { st' with down := some o })
+  | .wgWait :: p, st => if st.wg = 0 then execP i p st else st.finish false st.wg
+  | .print :: p, st => execP i p { st with printed := st.printed + 1 }
+
+/-- `Proxy` as it stands in proxies.go -/
+def proxy (i : ProxyIn) : ProxyOut := execP i canonicalP {}
 
 end CJ.HalfPipe
